@@ -783,6 +783,40 @@ class Closure(Unknown):
         self.node, self.defaults = node, defaults
 
 
+class Obj(Unknown):
+    """an instance of a plain class of the analysed module (or a types.SimpleNamespace): the values its attributes were given; a method call
+    on it is the method's body evaluated with `self` standing for the instance"""
+
+    def __init__(self, cls, fields):
+        super().__init__("an object (its attributes and methods are followed)")
+        self.cls, self.fields = cls, fields
+
+
+def _plain_classes(m):
+    """{name: ClassDef} of the module-level classes without bases / decorators / metaclass (a helper object extracted from a function)"""
+    if "_c18_classes" not in m.__dict__:
+        out = {}
+        for st in m.tree.body:
+            if isinstance(st, ast.ClassDef) and not st.decorator_list and not st.keywords and all(dotted(b) == "object" for b in st.bases):
+                out[st.name] = st
+        m.__dict__["_c18_classes"] = out
+    return m.__dict__["_c18_classes"]
+
+
+_HARMLESS_DECORATORS = {"functools.lru_cache", "lru_cache", "functools.cache", "cache", "staticmethod", "functools.wraps"}
+
+
+def _opaque_decorators(fn):
+    """decorators that may replace the function by something else (functools.singledispatch, a registry, numba ...): its body is then not what
+    a call runs"""
+    out = []
+    for x in getattr(fn, "decorator_list", []):
+        d = dotted(x.func if isinstance(x, ast.Call) else x)
+        if d not in _HARMLESS_DECORATORS:
+            out.append(d or ast.unparse(x))
+    return out
+
+
 class Partial(Unknown):
     """functools.partial(f, *args, **kw) bound to a local: calling it is calling f with the stored arguments first"""
 
@@ -842,6 +876,7 @@ class PathEval(AutoEvaluator):
         self._positions = []       # (position symbol @i<n>, sequence walked by position, its item @v<n>) of the index loops being evaluated
         self._brk = self._cont = False
         self.escaped = []          # values handed to calls whose result is thrown away (an opaque call statement may change them in place)
+        self._objs = {}            # call node -> object a followed helper returned for it
         self.hidden = []           # compound statements that were not executed although they hold a raise / return (control flow the paths miss)
         self.module_consts = _consts(ctx, rel)
         self.aliases = dict(_lib_aliases(ctx, rel))      # import aliases of library modules / functions -> canonical dotted spelling
@@ -962,6 +997,14 @@ class PathEval(AutoEvaluator):
             self.run(st.body)
             self.run(st.orelse)
             self.run(st.finalbody)
+            return
+        if isinstance(st, ast.For) and not st.orelse and len(st.body) == 1 and isinstance(st.body[0], ast.If) and not st.body[0].orelse \
+                and len(st.body[0].body) == 1 and isinstance(st.body[0].body[0], ast.Raise) and "any" not in self.env:
+            # `for x in X: if test(x): raise E`  refuses exactly when  any(test(x) for x in X)
+            gen = ast.GeneratorExp(elt=st.body[0].test, generators=[ast.comprehension(target=st.target, iter=st.iter, ifs=[], is_async=0)])
+            test = ast.Call(func=ast.Name(id="any", ctx=ast.Load()), args=[gen], keywords=[])
+            guard = ast.If(test=test, body=st.body[0].body, orelse=[])
+            self.stmt(ast.fix_missing_locations(ast.copy_location(guard, st)))
             return
         if isinstance(st, (ast.For, ast.While)):
             if any(isinstance(n, (ast.Raise, ast.Return)) for n in ast.walk(st)):
@@ -1309,6 +1352,18 @@ class PathEval(AutoEvaluator):
         return tot
 
     def _ev(self, node):
+        v = self._ev_inner(node)
+        if isinstance(node, ast.Call) and self._objs:
+            hit = self._objs.pop(id(getattr(node, "_c18_orig", node)), None)
+            if hit is not None:
+                return hit              # a helper that returned an object (the generic call evaluation keeps only formula values)
+        return v
+
+    def _ev_inner(self, node):
+        if isinstance(node, ast.Call):
+            r = self._object_call(node)
+            if r is not NotImplemented:
+                return r
         if isinstance(node, ast.BinOp) and isinstance(node.op, ast.MatMult):
             r = self._weighted_columns(self._ev(node.left), self._ev(node.right))
             if r is not None:
@@ -1357,6 +1412,10 @@ class PathEval(AutoEvaluator):
                 if node.attr in base.fields:
                     return base[base.fields.index(node.attr)]
                 return Unknown(f"attribute {node.attr} of a record")
+            if isinstance(base, Obj):
+                if node.attr in base.fields:
+                    return base.fields[node.attr]
+                return Unknown(f"attribute {node.attr} of an object")
         if isinstance(node, ast.BinOp) and isinstance(node.op, ast.Mult) and isinstance(node.left, (ast.List, ast.Tuple)) and len(node.left.elts) == 1 \
                 and isinstance(node.right, ast.Constant) and isinstance(node.right.value, int) and 0 <= node.right.value <= MAX_UNROLL:
             return (self.ev(node.left.elts[0]),) * node.right.value            # [x] * k: a list of k known items
@@ -1504,6 +1563,49 @@ class PathEval(AutoEvaluator):
                 raise Unsupported(v.why)
         return pos, kw
 
+    def _object_call(self, node):
+        """calls that make or use an object (an Unknown-derived value the generic call evaluation would drop)"""
+        f = node.func
+        d = dotted(f)
+        if d is not None and d.split(".")[0] in self.aliases and d.split(".")[0] not in self.env:
+            d = self.aliases[d.split(".")[0]] + d[len(d.split(".")[0]):]
+        # types.SimpleNamespace(a=.., b=..): an object with these attributes
+        if d in ("SimpleNamespace", "types.SimpleNamespace") and not node.args and all(k.arg for k in node.keywords) and d.split(".")[0] not in self.env:
+            return Obj(None, {k.arg: self.ev(k.value) for k in node.keywords})
+        # an instance of a plain class of the module: __init__ is evaluated with the argument values, the attributes it stores are the object
+        if isinstance(f, ast.Name) and f.id not in self.env:
+            cls = _plain_classes(raw_module(self.ctx, self.rel)).get(f.id)
+            if cls is not None:
+                init = next((x for x in cls.body if isinstance(x, ast.FunctionDef) and x.name == "__init__"), None)
+                if init is None or not init.args.args or _opaque_decorators(init):
+                    raise Unsupported("class without a plain __init__")
+                sub = self._method(init, Obj(cls, {}), node)
+                fields = {k[5:]: v for k, v in sub.env.items() if isinstance(k, str) and k.startswith("self.") and "." not in k[5:]}
+                return Obj(cls, fields)
+        # a method of such an object
+        is_obj = isinstance(f, ast.Attribute) and (
+            (isinstance(f.value, ast.Name) and isinstance(self.env.get(f.value.id), Obj)) or
+            (isinstance(f.value, ast.Call) and isinstance(f.value.func, ast.Name) and f.value.func.id not in self.env
+             and f.value.func.id in _plain_classes(raw_module(self.ctx, self.rel))))
+        if is_obj:
+            recv = self._ev(f.value)
+            if isinstance(recv, Obj):
+                meth_def = None if recv.cls is None else next((x for x in recv.cls.body if isinstance(x, ast.FunctionDef) and x.name == f.attr), None)
+                if meth_def is None or not meth_def.args.args or [z for z in _opaque_decorators(meth_def)]:
+                    raise Unsupported(f"method {f.attr} of an object")
+                sub = self._method(meth_def, recv, node)
+                if sub.raised is not None:
+                    self.raised = sub.raised
+                    self.done = True
+                    return Unknown("the method raised")
+                for k, v in sub.env.items():
+                    if isinstance(k, str) and k.startswith("self.") and "." not in k[5:]:
+                        recv.fields[k[5:]] = v          # attributes the method stored
+                if sub.returns and sub.returns[-1][0] is not None:
+                    return sub.returns[-1][0]
+                return F.sym("None")
+        return NotImplemented
+
     def _hook(self, node, ev):
         try:
             return self._hook2(node)
@@ -1598,6 +1700,11 @@ class PathEval(AutoEvaluator):
                     r = Rec(vals[x] for x in fields)
                     r.fields = tuple(fields)
                     return r
+        # (f if c else g)(args): the call of the function the test selects
+        if isinstance(f, ast.IfExp):
+            pick = ast.IfExp(test=f.test, body=ast.Call(func=f.body, args=node.args, keywords=node.keywords),
+                             orelse=ast.Call(func=f.orelse, args=node.args, keywords=node.keywords))
+            return self._ev(ast.fix_missing_locations(ast.copy_location(pick, node)))
         # a lambda / functools.partial object bound to a local
         if isinstance(f, ast.Name) and isinstance(self.env.get(f.id), Closure):
             return self._call_closure(self.env[f.id], node)
@@ -1842,9 +1949,46 @@ class PathEval(AutoEvaluator):
             return raw_func(self.ctx, rel, name)
         return None
 
+    def _method(self, meth, obj, node):
+        """evaluate the body of a method of a plain class with `self` standing for obj and the call's argument values; the evaluator is
+        returned (its env holds the attributes stored as `self.<name>`)"""
+        if self.depth >= MAX_DEPTH:
+            raise Unsupported("helper nesting too deep")
+        pos, kw = self._args(node)
+        a = meth.args
+        if a.vararg or a.kwarg or a.posonlyargs:
+            raise Unsupported("method signature")
+        names = [p.arg for p in a.args][1:]
+        if len(pos) > len(names):
+            raise Unsupported("method call arity")
+        bound = dict(zip(names, pos))
+        for k, v in kw.items():
+            if k in bound or k not in names + [p.arg for p in a.kwonlyargs]:
+                raise Unsupported("method keyword")
+            bound[k] = v
+        defaults = dict(zip(names[len(names) - len(a.defaults):], a.defaults)) if a.defaults else {}
+        defaults.update({p.arg: dflt for p, dflt in zip(a.kwonlyargs, a.kw_defaults) if dflt is not None})
+        for p in names + [p.arg for p in a.kwonlyargs]:
+            if p not in bound:
+                if p not in defaults:
+                    raise Unsupported("method call misses an argument")
+                bound[p] = self._need(defaults[p])
+        env = {a.args[0].arg: obj}
+        env.update({f"{a.args[0].arg}.{k}": v for k, v in obj.fields.items()})
+        env.update(bound)
+        sub = PathEval(meth, self.ctx, self.rel, self.decisions, self.trace, self.sites, self.depth + 1, env=env)
+        sub.escaped, sub.hidden = self.escaped, self.hidden
+        sub.run(meth.body)
+        if a.args[0].arg != "self":
+            sub.env.update({"self." + k[len(a.args[0].arg) + 1:]: v for k, v in list(sub.env.items())
+                            if isinstance(k, str) and k.startswith(a.args[0].arg + ".")})
+        return sub
+
     def _inline(self, callee, node, rel=None):
         if self.depth >= MAX_DEPTH:
             raise Unsupported("helper nesting too deep")
+        if _opaque_decorators(callee):
+            raise Unsupported(f"helper {callee.name} is decorated with {', '.join(_opaque_decorators(callee))}: its body is not what a call runs")
         pos, kw = self._args(node)
         a = callee.args
         if a.vararg or a.kwarg or a.posonlyargs:
@@ -1884,6 +2028,8 @@ class PathEval(AutoEvaluator):
         if gen:
             return sub.env.get("@yield", Unknown("generator not lowered"))
         if sub.returns and sub.returns[-1][0] is not None:
+            if isinstance(sub.returns[-1][0], Obj):
+                self._objs[id(getattr(node, "_c18_orig", node))] = sub.returns[-1][0]
             return sub.returns[-1][0]
         return F.sym("None")
 
